@@ -20,20 +20,22 @@ import (
 	vs "github.com/emitter-io/emitter/internal/verifspec"
 )
 
-//@ assume github.com/emitter-io/emitter/internal/security.MakeChannel iface
-//@ assume (*github.com/emitter-io/emitter/internal/security.Channel).SafeString iface
-//@ assume (github.com/emitter-io/emitter/internal/service.Authorizer).Authorize iface post=post_Authorize
+// @ assume github.com/emitter-io/emitter/internal/security.MakeChannel iface
+// @ assume (*github.com/emitter-io/emitter/internal/security.Channel).SafeString iface
+// @ assume (github.com/emitter-io/emitter/internal/service.Authorizer).Authorize iface post=post_Authorize
 func post_Authorize(res0 contract.Contract, res1 security.Key, res2 bool) bool {
 	return !res2 || (res0 != nil && len(res1) == 24)
 }
 
-func pre_link(s *Service, c service.Conn) bool { return s != nil && s.auth != nil && s.pubsub != nil && c != nil }
+func pre_link(s *Service, c service.Conn) bool {
+	return s != nil && s.auth != nil && s.pubsub != nil && c != nil
+}
 
 func specNoLinkEffect() bool {
 	return vs.TraceCount("AddLink") == 0 && vs.TraceCount("PubSub).Subscribe") == 0 && vs.TraceCount("Authorize") == 0
 }
 
-//@ verify (*Service).OnRequest pre=pre_link post=post_link_reject,post_link_add,post_link_subscribe,post_link_noextend props=C02,C11
+// @ verify (*Service).OnRequest pre=pre_link post=post_link_reject,post_link_add,post_link_subscribe,post_link_noextend props=C02,C11
 func post_link_reject(s *Service, res0 service.Response, res1 bool) bool {
 	// refused (bad json, bad shortcut name, invalid channel): nothing is stored, nobody is asked, nothing is subscribed
 	if res1 {
